@@ -177,11 +177,24 @@ def freeze_family(ld, r, count):
                 plain_ds = build()
             except Exception:
                 continue
+            # in half of the cases an iterator is made and dropped without being advanced first - with and without the wrapper that
+            # starts no epoch (no function of a lazy apply runs, no order is drawn)
+            pre_iter = r.random() < 0.5
+            if pre_iter:
+                try:
+                    iter(plain_ds)
+                except Exception:
+                    pass
             plain = gen_a.obs_iter(plain_ds, False)
             try:
                 target = build()
                 snap = snapshot(target)
                 prof = ld.core.ProfilingDataset(target)
+                if pre_iter:
+                    try:
+                        iter(prof)
+                    except Exception:
+                        pass
                 wrapped = gen_a.obs_iter(prof, False)
                 gen_a.obs_iter(prof, False)              # a second profiled epoch
                 if snapshot(target) != snap:
